@@ -30,6 +30,20 @@ Theorem C18_stencil_exact_global_basis :
 Proof. exact stencil_sound_global. Qed.
 Print Assumptions C18_stencil_exact_global_basis.
 
+(* (1'') Neumann boundary rows: matrix row + boundary-vector entry for the prescribed derivative are exact for EVERY
+   polynomial with at most n coefficients, every x, every h <> 0 (pderiv = formal derivative of the coefficient list, so
+   peval (pderiv a) ((y - x)/h) / h is the derivative of y |-> peval a ((y - x)/h)) *)
+Theorem C18_neumann_row_exact_for_all_polynomials :
+  forall steps w c g d rtol n, check_neumann_row steps w c g d rtol n = true ->
+  forall a, (length a <= n)%nat ->
+  forall x h, ~ (h == 0)%Q ->
+  (Qabs (wsum (Qw w) (map (fun s => x + inject_Z s * h) steps) (fun y => peval a ((y - x) / h))
+         + D2Q c * h * (peval (pderiv a) (((x + inject_Z g * h) - x) / h) / h)
+         - inject_Z (zfact d) * nth d a 0)
+   <= abs_lin_from 0 a (neumann_tol steps w c g rtol))%Q.
+Proof. exact neumann_row_sound. Qed.
+Print Assumptions C18_neumann_row_exact_for_all_polynomials.
+
 (* (2) get_steps returns n pairwise distinct offsets, n as documented, for every layout *)
 Theorem C18_steps_count : forall der ord st, (0 < der)%Z -> (0 < ord)%Z ->
   Z.of_nat (length (get_steps der ord st)) = steps_n der ord st.
